@@ -129,6 +129,27 @@ def check_mappable(cfg, run, ctx, key, e, proj_template):
     seq = run.seq
     qids_before = sorted(seq._qids)
     declared = list(seq.get_register(include_mappable=True).qubit_ids)
+    # the same program as a PARAMETRIZED mappable template: a variable phase shift (assigned 0, which shifts
+    # nothing) right after the declarations makes every later call a stored call that build() replays
+    ptw = None
+    try:
+        from pulser.register.mappable_reg import MappableRegister as _MR
+        ptw = Runner.__new__(Runner)
+        ptw.cfg, ptw.dev_index, ptw.dev, ptw.device, ptw.V = cfg, run.dev_index, run.dev, run.device, None
+        ptw.layout, ptw.ids = run.layout, run.ids
+        ptw.seq = Sequence(_MR(run.layout, *declared), run.device)
+        for k in cfg.init_calls:
+            ptw.call(cfg.calls[k - 1])
+        with warnings.catch_warnings():
+            warnings.simplefilter("ignore")
+            v0 = ptw.seq.declare_variable("zz0", dtype=float)
+            ch0 = next(iter(ptw.seq.declared_channels.values()))
+            ptw.seq.phase_shift(v0, basis=ch0.basis)
+        for c, o in zip(calls, outs):
+            if o == "ok" and c["op"] not in ("est", "getdur"):
+                ptw.call(c)
+    except Exception:  # noqa: BLE001
+        ptw = None
     for mi, mapping in enumerate(cfg.mappings):
         res, built = _build(seq, {"qubits": dict(mapping)})
         sub = [q for q in declared if q in mapping]
@@ -136,6 +157,7 @@ def check_mappable(cfg, run, ctx, key, e, proj_template):
         reg = pulser.Register({q: run.layout.traps_dict[mapping[q]] for q in sub})
         d = Runner.__new__(Runner)
         d.cfg, d.dev_index, d.dev, d.device, d.V = cfg, run.dev_index, run.dev, run.device, None
+        d.ids = run.ids
         d.seq = Sequence(reg, run.device)
         dres = "ok"
         for k in cfg.init_calls:
@@ -148,6 +170,8 @@ def check_mappable(cfg, run, ctx, key, e, proj_template):
             r, _ = d.call(c)
             if r != "ok":
                 dres = r
+        if dres.startswith("EX:"):
+            raise RuntimeError(f"direct construction of the mappable check failed with {dres}")
         if dres != "ok":
             continue            # the direct construction rejects this mapping (e.g. unmapped target)
         if res != "ok":
@@ -174,6 +198,20 @@ def check_mappable(cfg, run, ctx, key, e, proj_template):
             why = f"projection failed: {ex!r}"
         if why:
             out.append(("C08.BuildEqualsDirect", {"clause": "mappable_differs", "mapping": mi, "why": why[:200]}))
+        if ptw is not None and not why:
+            res2, built2 = _build(ptw.seq, {"qubits": dict(mapping), "zz0": 0.0})
+            if res2 != "ok":
+                out.append(("C08.BuildEqualsDirect", {"clause": "mappable_parametrized_build_raises", "mapping": mi,
+                                                      "build": res2}))
+            else:
+                try:
+                    why2 = P.diff(_strip(P.project(built2, c2)), _strip(P.project(d.seq, c2)), cfg.ptol,
+                                  cfg.phase_mod, "built")
+                except Exception as ex:  # noqa: BLE001
+                    why2 = f"projection failed: {ex!r}"
+                if why2:
+                    out.append(("C08.BuildEqualsDirect", {"clause": "mappable_parametrized_differs", "mapping": mi,
+                                                          "why": why2[:200]}))
     # declared order that is not the sorted order of the ids, index-based targeting against it
     if not _probe_done["x"]:
         _probe_done["x"] = True
